@@ -104,6 +104,11 @@ def succs(term):
     return []
 
 
+REF_PRESERVING = re.compile(r' as core::ops::DerefMut>::deref_mut$| as core::ops::Deref>::deref$| as core::convert::AsMut<.*>>::as_mut$|'
+                            r' as core::borrow::BorrowMut<.*>>::borrow_mut$|core::slice::index::<impl core::ops::IndexMut<.*> for \[.*\]>::index_mut$|'
+                            r'core::array::<impl core::ops::IndexMut<.*> for \[.*\]>::index_mut$')
+
+
 def prep_body(body):
     """Annotates a body with:
     body['defs']  : list of definitions (id -> dict(local, bb, idx, kind, ...)); idx == len(st) for terminator
@@ -112,7 +117,7 @@ def prep_body(body):
     """
     blocks = body['blocks']
     n = len(blocks)
-    # single-def reference temporaries
+    # single-def reference temporaries (and reference-preserving re-wrappings of them)
     assigns = {}
     for bi, b in enumerate(blocks):
         if b['cleanup']:
@@ -122,16 +127,33 @@ def prep_body(body):
                 assigns.setdefault(s['pl']['l'], []).append(s['rv'])
         t = b['term']
         if t['t'] == 'call' and not t['dest'].get('p'):
-            assigns.setdefault(t['dest']['l'], []).append(None)
+            assigns.setdefault(t['dest']['l'], []).append(('call', t))
     refs = {}
+    alias = {}     # local holding a reference derived from another reference local
     for l, rvs in assigns.items():
-        if len(rvs) == 1 and rvs[0] is not None and rvs[0]['r'] in ('ref', 'rawptr'):
-            refs[l] = (rvs[0]['pl'], rvs[0].get('mut', False))
+        if len(rvs) != 1:
+            continue
+        rv = rvs[0]
+        if isinstance(rv, tuple):
+            t = rv[1]
+            if REF_PRESERVING.search(t['callee']) and t['args'] and op_local(t['args'][0]) is not None:
+                alias[l] = op_local(t['args'][0])
+            continue
+        if rv['r'] in ('ref', 'rawptr'):
+            refs[l] = (rv['pl'], rv.get('mut', False))
+        elif rv['r'] == 'cast' and op_local(rv['a']) is not None and rv['ty'].startswith('&'):
+            alias[l] = op_local(rv['a'])
+        elif rv['r'] == 'use' and op_local(rv['o']) is not None and body['locals'][l].startswith('&'):
+            alias[l] = op_local(rv['o'])
     body['refs'] = refs
 
     def resolve_ref(l, depth=0):
         """local holding a reference -> (base local, projection beyond derefs) it points to, or None"""
-        if depth > 8 or l not in refs:
+        if depth > 10:
+            return None
+        if l in alias:
+            return resolve_ref(alias[l], depth + 1)
+        if l not in refs:
             return None
         pl, _ = refs[l]
         proj = pl.get('p', [])
@@ -177,6 +199,8 @@ def prep_body(body):
                         continue
                     ty = t['argtys'][ai] if ai < len(t.get('argtys', [])) else ''
                     if not ty.startswith('&mut '):
+                        continue
+                    if REF_PRESERVING.search(t['callee']):
                         continue
                     r = resolve_ref(al)
                     if r is None:
@@ -678,30 +702,25 @@ class EntryGraph:
     # ---------------- def-use chains (guarded value flow) ----------------
     @staticmethod
     def _proj_path(pl):
-        """field path selected by a place projection (derefs ignored; an enum payload field is transparent)"""
+        """projection of a place as a hashable path: ('f', idx, name) field / ('v', idx, name) downcast (derefs dropped)"""
         path = []
-        after_variant = False
         for e in pl.get('p', []):
             if e == '*':
                 continue
             if 'v' in e:
-                after_variant = True
-                continue
-            if 'f' in e:
-                if after_variant:
-                    after_variant = False
-                    continue
-                path.append(e['n'] or str(e['f']))
+                path.append(('v', e['v'], e['n'] or str(e['v'])))
+            elif 'f' in e:
+                path.append(('f', e['f'], e['n'] or str(e['f'])))
             else:
-                path.append('[]')
+                path.append(('o', 0, '[]'))
         return tuple(path)
 
-    def def_chains(self, ctx, bb, idx, place, limit=400):
+    def def_chains(self, ctx, bb, idx, place, limit=600):
         """Backward def-use chains from the value of `place` (dict l/p, or a local number) at the point (bb, idx):
         list of (nodes, leaf_term) where nodes are the (ctx id, bb) of every definition the selected
-        (sub)value passes through — copies, moves, casts, struct/tuple construction (only the selected field is
-        followed), returns of walked callees, parameter passing — newest first, and leaf_term is the normalised
-        term of the originating definition."""
+        (sub)value passes through — copies, moves, casts, arithmetic, struct/tuple/variant construction (only the
+        selected field / matching variant is followed), returns of walked callees, parameter passing — newest
+        first, and leaf_term is the normalised term of the originating definition."""
         from norm import norm as _norm
         if isinstance(place, int):
             place = {'l': place}
@@ -710,10 +729,16 @@ class EntryGraph:
 
         def leaf(nodes, term, path):
             budget[0] -= 1
-            t = _norm(term)
-            for f in path:
-                t = _norm(('field', f, t))
-            out.append((nodes, t))
+            elems = []
+            for kind, i, n in path:
+                if kind == 'v':
+                    elems.append({'v': i, 'n': n})
+                elif kind == 'f':
+                    elems.append({'f': i, 'n': n})
+                else:
+                    elems.append({'o': n})
+            t = self.project(term, elems) if elems else term
+            out.append((nodes, _norm(t)))
 
         def follow_operand(c, b, i, o, path, nodes, seen):
             if o['k'] in ('copy', 'move'):
@@ -738,7 +763,7 @@ class EntryGraph:
                         if l == 1:
                             follow_operand(p, c.callbb, pi, t['args'][0], path, nodes, seen)
                         elif len(t['args']) > 1:
-                            follow_operand(p, c.callbb, pi, t['args'][1], (str(l - 2),) + path, nodes, seen)
+                            follow_operand(p, c.callbb, pi, t['args'][1], (('f', l - 2, str(l - 2)),) + path, nodes, seen)
                         return
                     if l - 1 < len(t['args']):
                         follow_operand(p, c.callbb, pi, t['args'][l - 1], path, nodes, seen)
@@ -759,7 +784,7 @@ class EntryGraph:
                         follow_operand(c, d['bb'], d['idx'], rv['a'], path, n2, seen)
                     elif k == 'bin':
                         # arithmetic: the result derives from both operands (checked ops yield a (value, flag) pair)
-                        p2 = path[1:] if path and path[0] in ('0', '1') and rv['op'].endswith('WithOverflow') else path
+                        p2 = path[1:] if path and path[0][0] == 'f' and rv['op'].endswith('WithOverflow') else path
                         any_local = False
                         for o in (rv['a'], rv['b']):
                             if o['k'] in ('copy', 'move'):
@@ -769,15 +794,19 @@ class EntryGraph:
                             leaf(n2, self.term_def(c, d, 0), path)
                     elif k == 'agg' and rv['kind'] in ('adt', 'tuple'):
                         ops = rv['ops']
+                        pth = path
                         if rv['kind'] == 'adt' and rv.get('is_enum'):
-                            for o in ops:
-                                follow_operand(c, d['bb'], d['idx'], o, path, n2, seen)
-                            if not ops:
+                            if pth and pth[0][0] == 'v':
+                                if pth[0][2] != rv['variant']:
+                                    continue          # the value read is another variant: this definition cannot be its origin
+                                pth = pth[1:]
+                            elif pth:
                                 leaf(n2, self.term_def(c, d, 0), path)
-                        elif path:
-                            names = rv['fields'] if rv['kind'] == 'adt' else [str(x) for x in range(len(ops))]
-                            if path[0] in names:
-                                follow_operand(c, d['bb'], d['idx'], ops[names.index(path[0])], path[1:], n2, seen)
+                                continue
+                        if pth and pth[0][0] == 'f':
+                            fi = pth[0][1]
+                            if fi < len(ops):
+                                follow_operand(c, d['bb'], d['idx'], ops[fi], pth[1:], n2, seen)
                             else:
                                 leaf(n2, self.term_def(c, d, 0), path)
                         else:
@@ -796,10 +825,20 @@ class EntryGraph:
                         if ta is not None and ta < len(t['args']):
                             follow_operand(c, d['bb'], d['idx'], t['args'][ta], path, n2, seen)
                         elif re.search(r'core::num::<impl [iu]\d+>::(checked|wrapping|saturating|overflowing)_', t['callee']):
+                            p2 = path
+                            while p2 and p2[0][0] in ('v', 'f'):
+                                p2 = p2[1:]       # Some(..) payload of a checked op is the arithmetic result
                             for o in t['args']:
-                                follow_operand(c, d['bb'], d['idx'], o, path, n2, seen)
+                                follow_operand(c, d['bb'], d['idx'], o, p2, n2, seen)
                         else:
                             leaf(n2, self.term_def(c, d, 0), path)
+                elif d['kind'] == 'mut':
+                    # updated through &mut by a leaf (copy_from_slice, push_back, ...): derives from the old value and the other arguments
+                    t = d['term']
+                    walk(c, d['bb'], d['idx'], d['local'], path, n2, seen)
+                    for ai, o in enumerate(t['args']):
+                        if ai != d['argi']:
+                            follow_operand(c, d['bb'], d['idx'], o, (), n2, seen)
                 else:
                     leaf(n2, self.term_def(c, d, 0), path)
         walk(ctx, bb, idx, place['l'], self._proj_path(place), [], frozenset())
